@@ -18,7 +18,7 @@ from ..core.astutil import u, call_name, kwarg, walk_local
 from ..core.loader import AnchorError, Undecided
 from ..core.report import Ctx
 from .c22 import (KI, Arr, Int, Mat, Mask, Tup, GridV, Opaque, ListV, DictV, E, S, n_of, size_of, fmt_space, fmt_val, fmt_ident,
-                  canon_space, count_atoms, view_of, _reporter, _z, flat_prod, SPACE_SIZES, BOT, _plain_defs, _resolve, _to_sym)
+                  canon_space, count_atoms, view_of, _reporter, guarded, _z, flat_prod, SPACE_SIZES, BOT, _plain_defs, _resolve, _to_sym)
 
 REF = "src/porepy/grids/refinement.py"
 EXT = "src/porepy/grids/grid_extrusion.py"
@@ -59,7 +59,7 @@ META = {
     "technique": "index-space / layout type inference with contradiction detection + polynomial count identities + sympy identities "
                  "on extracted formulas",
 }
-MIN_INSTANCES = {"R1": 10, "R2": 60, "R3": 8, "R4": 7}
+MIN_INSTANCES = {"R1": 14, "R2": 85, "R3": 10, "R4": 10}
 
 L = S("L")   # number of cell layers
 
@@ -269,13 +269,17 @@ def _check_tags(ctx: Ctx, mod, q: str, tags: DictV, g: str) -> int:
             raise Undecided(f"{mod.rel}:{q}: tag array '{key}' could not be typed ({fmt_val(v)})")
         n += 1
         tot = size_of(v.axes[0])
-        ctx.check("R2", tot is not None and _z(tot - SPACE_SIZES[("X", K)]), mod, q, None,
+        if tot is None or any(x.name.startswith("|") for x in tot.free_symbols):
+            raise Undecided(f"{mod.rel}:{q}: length of tag array '{key}' unknown ({fmt_space(v.axes[0])})")
+        ctx.check("R2", _z(tot - SPACE_SIZES[("X", K)]), mod, q, None,
                   f"tag '{key}' has {tot} entries; the extruded grid has {SPACE_SIZES[('X', K)]} {'faces' if K == 'F' else 'nodes'}",
                   construct=f"tag '{key}': one entry per new {'face' if K == 'F' else 'node'}", facts={"length": str(tot)})
         bl = _blocks(v.axes[0])
         if K == "F":
             head = bl[0]
             want = flat_prod([("pos", L), E(g, "F")])
+            if layout_equiv(head, want) is None:
+                raise Undecided(f"{mod.rel}:{q}: leading block of tag '{key}' not comparable ({fmt_space(head)})")
             ctx.check("R2", layout_equiv(head, want) is True and all(E(g, "F") not in (list(b[1]) if isinstance(b, tuple) and b[0] == "prod" else [b])
                                                                        for b in bl[1:]), mod, q, None,
                       f"tag '{key}': the vertical faces come first (L copies of the old face tags, layer by layer), the horizontal faces after "
@@ -334,6 +338,8 @@ def rule_extrusion(ctx: Ctx, mod) -> None:
         if not isinstance(nodes, Arr) or nodes.axes is None:
             raise Undecided(f"{EXT}:{q}: cannot type the node array of the new grid")
         want = flat_prod([("pos", L + 1), E(g, "N")])
+        if layout_equiv(nodes.axes[-1], want) is None:
+            raise Undecided(f"{EXT}:{q}: layout of the node array ({fmt_space(nodes.axes[-1])}) not comparable")
         ctx.check("R2", layout_equiv(nodes.axes[-1], want) is True, mod, q, c,
                   f"the new nodes must be stacked layer by layer (layer k holds the old nodes at z[k]): layout {fmt_space(want)}; found {fmt_space(nodes.axes[-1])}",
                   construct="new nodes stacked layer-major")
@@ -342,7 +348,9 @@ def rule_extrusion(ctx: Ctx, mod) -> None:
             if not isinstance(m, Mat):
                 raise Undecided(f"{EXT}:{q}: cannot type the {slot} argument of pp.Grid")
             got = (_kind_of(m.rk), _kind_of(m.ck))
-            ctx.check("R2", got[0] == rk and got[1] in (ck, None), mod, q, c,
+            if got == (None, None):
+                raise Undecided(f"{EXT}:{q}: the {slot} argument of pp.Grid is typed {fmt_val(m)}")
+            ctx.check("R2", got[0] in (rk, None) and got[1] in (ck, None), mod, q, c,
                       f"the {slot} slot of pp.Grid receives a matrix typed {got}", construct=f"Grid({slot}=...) is the {rk} x {ck} incidence")
         nm = _check_maps(ctx, mod, q, ki, g)
         if nm < 2:
@@ -355,6 +363,8 @@ def rule_extrusion(ctx: Ctx, mod) -> None:
             raise Undecided(f"{EXT}:{q}: expected one `return grid, cell_map, face_map`")
         rs, rv = rets[0]
         doms = [x.axes[0] if isinstance(x, Arr) and x.axes else None for x in rv.items[1:]]
+        if None in doms:
+            raise Undecided(f"{EXT}:{q}: the returned maps could not be typed")
         ctx.check("R2", rv.items[0] == gv and doms == [E(g, "C"), E(g, "F")], mod, q, rs,
                   f"the function returns (new grid, map indexed by old cells, map indexed by old faces); found maps over {[fmt_space(d) for d in doms]}",
                   construct="returned (grid, cell map, face map)")
@@ -410,7 +420,15 @@ def rule_refine_triangle(ctx: Ctx, mod) -> None:
     g = fn.args.args[0].arg
     ki = KI(fn, f"{REF}:{q}", _reporter(ctx, "R1", mod, q), offset_hook=refine_hook(g))
     ki.env[g] = GridV(g)
+    n0 = len(ctx.findings)
     ki.run(fn.body)
+
+    def und(msg: str) -> None:
+        """an untypable site downstream of a contradiction already reported by this rule is a note, not a refusal"""
+        if len(ctx.findings) > n0:
+            ctx.note("not typed (downstream of a reported contradiction): " + msg)
+            return
+        raise Undecided(f"{REF}:{q}: {msg}")
     C, N, F = E(g, "C"), E(g, "N"), E(g, "F")
     NF = ("cat", (N, F))
     chk = lambda ok, node, msg, cons, **f: ctx.check("R1", bool(ok), mod, q, node, msg, construct=cons, facts={k: str(v) for k, v in f.items()} or None)
@@ -426,6 +444,8 @@ def rule_refine_triangle(ctx: Ctx, mod) -> None:
     pts = bound.get("p", (None, None))[1]
     if not (isinstance(tri, Arr) and tri.axes is not None and len(tri.axes) == 2 and isinstance(pts, Arr) and pts.axes is not None):
         raise Undecided(f"{REF}:{q}: cannot type the node array / corner table given to TriangleGrid ({fmt_val(pts)}, {fmt_val(tri)})")
+    if not (isinstance(pts.axes[-1], tuple) and pts.axes[-1][0] == "cat" and set(pts.axes[-1][1]) == {N, F}):
+        raise Undecided(f"{REF}:{q}: the node array is not a stack of the old nodes and the face centres ({fmt_space(pts.axes[-1])})")
     chk(pts.axes[-1] == NF, cnode, f"the new node array must be [old nodes ; face centres] (found {fmt_space(pts.axes[-1])}): the corner table numbers "
         f"face-centre nodes after the old nodes", "new nodes = old nodes followed by face centres")
     # rows written into the per-cell table
@@ -434,7 +454,8 @@ def rule_refine_triangle(ctx: Ctx, mod) -> None:
         if not (isinstance(bval, Arr) and bval.axes is not None and len(bval.axes) == 3 and bval.axes[1] == C):
             continue
         if not isinstance(v, Arr):
-            raise Undecided(f"{REF}:{q}: cannot type the value stored by `{u(s)[:70]}`")
+            und(f"cannot type the value stored by `{u(s)[:70]}`")
+            continue
         rows = list(v.ident[1]) if isinstance(v.ident, tuple) and v.ident and v.ident[0] == "rows" else [v]
         nstore += 1
         for k, r_ in enumerate(rows):
@@ -451,21 +472,30 @@ def rule_refine_triangle(ctx: Ctx, mod) -> None:
             aw = None
             if isinstance(idn, tuple) and idn and idn[0] == "picked" and isinstance(idn[2], tuple) and idn[2][0] == "rmi":
                 a_ = idn[2][1]
-                transposed = False
-                while isinstance(a_, tuple) and a_ and a_[0] == "T":
-                    a_, transposed = a_[1], not transposed
-                if isinstance(a_, tuple) and a_ and a_[0] == "argwhere":
+                transposed = rev = False
+                while isinstance(a_, tuple) and a_:
+                    if a_[0] == "T":
+                        a_, transposed = a_[1], not transposed
+                    elif a_[0] == "gather" and len(a_) == 3 and a_[2] == ("all", "::-1"):
+                        a_, rev = a_[1], not rev
+                    else:
+                        break
+                if isinstance(a_, tuple) and a_ and a_[0] == "argwhere" and transposed:
                     aw = a_
             if aw is None:
                 raise Undecided(f"{REF}:{q}: ordering of {where} ({fmt_val(r_)}) not recognised")
             axes = aw[2]
+            cols = list(reversed(axes)) if rev else list(axes)
+            chk(cols[-1] == C, s,
+                f"{where}: the multi-index handed to ravel_multi_index lists {[fmt_space(a) for a in cols]} but the table it indexes is (rows, cells): the cell "
+                f"number must be the second component", f"{where}: multi-index components match the (row, cell) table")
             chk(axes[0] == C, s,
                 f"{where}: the picked entries are enumerated by np.argwhere over a condition with axes {[fmt_space(a) for a in axes]}: row-major, i.e. "
                 f"ordered by the FIRST axis; the cells are the {'first' if axes[0] == C else 'last'} axis, so entry i is not the hit of cell i whenever the "
                 f"hits of different cells lie in different rows (transpose the condition, or sort the hits by column)",
                 f"{where}: ordered by cell", axes=[fmt_space(a) for a in axes])
     if nrows < 4:
-        raise Undecided(f"{REF}:{q}: expected the corner rows of the 4 children, found {nrows}")
+        und(f"expected the corner rows of the 4 children, found {nrows}")
     # parent map
     par = rv.items[1]
     if not (isinstance(par, Arr) and par.axes is not None and len(par.axes) == 1):
@@ -548,6 +578,17 @@ def _check_combination(ctx: Ctx, mod, q: str, fn: ast.AST, expr: ast.expr, node:
     return next(iter(thetas))
 
 
+def _alias_root(fn: ast.AST, name: str, depth: int = 4) -> str:
+    """follow `a = b` aliases (single plain definitions) to the underlying name"""
+    while depth > 0:
+        d = _plain_defs(fn, name)
+        if len(d) == 1 and isinstance(d[0].value, ast.Name):
+            name, depth = d[0].value.id, depth - 1
+        else:
+            break
+    return name
+
+
 def rule_convex(ctx: Ctx, mod) -> None:
     # ---- refine_grid_1d
     q = "refine_grid_1d"
@@ -564,48 +605,65 @@ def rule_convex(ctx: Ctx, mod) -> None:
     ends = [n.slice.elts[1].id for n in ast.walk(st.value) if isinstance(n, ast.Subscript) and isinstance(n.value, ast.Attribute)
             and n.value.attr == "nodes" and isinstance(n.slice, ast.Tuple)]
     pair = [s for s in ast.walk(fn) if isinstance(s, ast.Assign) and isinstance(s.targets[0], ast.Tuple)
-            and [getattr(t, "id", None) for t in s.targets[0].elts] in (ends, ends[::-1])]
-    ok_w = False
-    if len(pair) == 1 and isinstance(pair[0].value, ast.Subscript):
-        src, win = pair[0].value.value, _resolve(fn, pair[0].value.slice)
-        if isinstance(win, ast.Call) and call_name(win) == "slice" and len(win.args) == 2 and isinstance(src, ast.Attribute) and src.attr == "indices":
-            lo, hi = win.args
-            if isinstance(lo, ast.Subscript) and isinstance(hi, ast.Subscript) and u(lo.value) == u(hi.value) and u(lo.value) == u(src.value) + ".indptr" \
-                    and isinstance(hi.slice, ast.BinOp) and isinstance(hi.slice.op, ast.Add) and u(hi.slice.left) == u(lo.slice) \
-                    and isinstance(hi.slice.right, ast.Constant) and hi.slice.right.value == 1:
-                ok_w = True
-    if not pair:
-        raise Undecided(f"{REF}:{q}: definition of the end nodes {ends} not found")
-    ctx.check("R3", ok_w, mod, q, pair[0],
-              f"the two end nodes must be the entries of one cell's window M.indices[M.indptr[c]:M.indptr[c+1]] of one matrix (found `{u(pair[0])[:90]}`)",
-              construct="end nodes come from one cell's pointer window")
+            and sorted(getattr(t, "id", "") for t in s.targets[0].elts) == sorted(ends)]
+    if len(pair) != 1 or not isinstance(pair[0].value, ast.Subscript):
+        raise Undecided(f"{REF}:{q}: definition of the end nodes {ends} not recognised")
+    src, win = pair[0].value.value, _resolve(fn, pair[0].value.slice)
+    if isinstance(win, ast.Call) and call_name(win) == "slice" and len(win.args) == 2:
+        lo, hi = win.args
+    elif isinstance(win, ast.Slice) and win.lower is not None and win.upper is not None and win.step is None:
+        lo, hi = win.lower, win.upper
+    else:
+        raise Undecided(f"{REF}:{q}: window `{u(pair[0].value)[:80]}` not recognised")
+    if not (isinstance(src, ast.Attribute) and src.attr == "indices" and isinstance(lo, ast.Subscript) and isinstance(hi, ast.Subscript)
+            and isinstance(lo.value, ast.Attribute) and isinstance(hi.value, ast.Attribute) and lo.value.attr == hi.value.attr == "indptr"):
+        raise Undecided(f"{REF}:{q}: end nodes are not read from a pointer window of a compressed matrix (`{u(pair[0])[:80]}`)")
+    atoms: dict = {}
+    keep = {n.id for n in ast.walk(lo.slice) if isinstance(n, ast.Name)} | {n.id for n in ast.walk(hi.slice) if isinstance(n, ast.Name)}
+    d = None
+    a_, b_ = _to_sym(lo.slice, fn, atoms, keep), _to_sym(hi.slice, fn, atoms, keep)
+    if a_ is not None and b_ is not None:
+        d = sp.expand(b_ - a_)
+    if d is None:
+        raise Undecided(f"{REF}:{q}: window bounds `{u(lo)}`, `{u(hi)}` not comparable")
+    same = u(lo.value.value) == u(hi.value.value) == u(src.value)
+    ctx.check("R3", same and d == 1, mod, q, pair[0],
+              f"the two end nodes must be the entries of ONE cell's window M.indices[M.indptr[c]:M.indptr[c+1]] of one matrix (found indices of `{u(src.value)}`, "
+              f"bounds `{u(lo)}` .. `{u(hi)}`)", construct="end nodes come from one cell's pointer window")
     # counts: all equal ratio - 1
     R = sp.Symbol(rname)
     atoms = {rname: R}
     tr = _theta_range(fn, th)
     n_theta = _to_sym(tr[1], fn, atoms, {rname}) if tr else None
-    ctx.check("R3", n_theta is not None and _z(n_theta - (R - 1)), mod, q, st, f"number of weights per cell must be {rname}-1 (found {n_theta})",
+    if n_theta is None:
+        raise Undecided(f"{REF}:{q}: number of weights not extractable")
+    ctx.check("R3", _z(n_theta - (R - 1)), mod, q, st, f"number of weights per cell must be {rname}-1 (found {n_theta})",
               construct="ratio-1 inserted nodes per cell: number of weights")
     sl = st.targets[0].slice
-    width = None
-    if isinstance(sl, ast.Tuple) and len(sl.elts) == 2 and isinstance(sl.elts[1], ast.Slice) and sl.elts[1].lower is not None and sl.elts[1].upper is not None:
-        a_, b_ = _to_sym(sl.elts[1].lower, fn, atoms, {rname} | {n.id for n in ast.walk(sl.elts[1].lower) if isinstance(n, ast.Name)}), \
-            _to_sym(sl.elts[1].upper, fn, atoms, {rname} | {n.id for n in ast.walk(sl.elts[1].lower) if isinstance(n, ast.Name)})
-        if a_ is not None and b_ is not None:
-            width = sp.expand(b_ - a_)
-        counter = u(sl.elts[1].lower)
-    else:
+    if not (isinstance(sl, ast.Tuple) and len(sl.elts) == 2 and isinstance(sl.elts[1], ast.Slice) and sl.elts[1].lower is not None
+            and sl.elts[1].upper is not None and sl.elts[1].step is None):
         raise Undecided(f"{REF}:{q}: target slice of the interpolated nodes not recognised")
-    ctx.check("R3", width is not None and _z(width - (R - 1)), mod, q, st, f"the slice that receives the inserted nodes must be {rname}-1 wide (found {width})",
+    lo_names = {n.id for n in ast.walk(sl.elts[1].lower) if isinstance(n, ast.Name)}
+    a_, b_ = _to_sym(sl.elts[1].lower, fn, atoms, {rname} | lo_names), _to_sym(sl.elts[1].upper, fn, atoms, {rname} | lo_names)
+    if a_ is None or b_ is None or not isinstance(sl.elts[1].lower, ast.Name):
+        raise Undecided(f"{REF}:{q}: bounds of the target slice not extractable")
+    width = sp.expand(b_ - a_)
+    ctx.check("R3", _z(width - (R - 1)), mod, q, st, f"the slice that receives the inserted nodes must be {rname}-1 wide (found {width})",
               construct="ratio-1 inserted nodes per cell: slice width")
+    counter = _alias_root(fn, sl.elts[1].lower.id)
     loop = None
     for lp in ast.walk(fn):
         if isinstance(lp, ast.For) and any(x is st for x in ast.walk(lp)):
             loop = lp
-    incs = [s for s in ast.walk(loop) if isinstance(s, ast.AugAssign) and u(s.target) == counter and isinstance(s.op, ast.Add)
-            and not (isinstance(s.value, ast.Constant) and s.value.value == 1) and loop is not None and any(s is x for x in loop.body)] if loop else []
-    inc = _to_sym(incs[0].value, fn, atoms, {rname}) if len(incs) == 1 else None
-    ctx.check("R3", inc is not None and _z(inc - (R - 1)), mod, q, incs[0] if incs else st,
+    if loop is None:
+        raise Undecided(f"{REF}:{q}: the interpolation is not inside the loop over the cells")
+    order = {id(x): i for i, x in enumerate(n for n in ast.walk(loop) if isinstance(n, ast.stmt))}
+    incs = [s for s in loop.body if isinstance(s, ast.AugAssign) and isinstance(s.target, ast.Name) and s.target.id == counter
+            and isinstance(s.op, ast.Add) and order[id(s)] > order[id(st)]]
+    inc = _to_sym(incs[0].value, fn, atoms, {rname}) if incs else None
+    if inc is None:
+        raise Undecided(f"{REF}:{q}: the advance of the node counter `{counter}` after the interpolation was not found")
+    ctx.check("R3", _z(inc - (R - 1)), mod, q, incs[0],
               f"after the inserted nodes the node counter must advance by {rname}-1 (found {inc})", construct="ratio-1 inserted nodes per cell: counter increment")
     # ---- remesh_1d
     q = "remesh_1d"
@@ -617,15 +675,19 @@ def rule_convex(ctx: Ctx, mod) -> None:
     st = cands[0]
     th = _check_combination(ctx, mod, q, fn, st.value, st, "equispaced nodes")
     tr = _theta_range(fn, th)
-    ctx.check("R3", tr is not None and isinstance(tr[1], ast.Name) and tr[1].id == params[1], mod, q, st,
-              f"the weight array must have {params[1]} entries between 0 and 1 inclusive (np.linspace(0, 1, {params[1]}))",
-              construct="number of new nodes = requested number")
+    cnt = _to_sym(tr[1], fn, {}, {params[1]}) if tr else None
+    if cnt is None:
+        raise Undecided(f"{REF}:{q}: number of weights not extractable")
+    ctx.check("R3", _z(cnt - sp.Symbol(params[1])), mod, q, st,
+              f"the weight array must have {params[1]} entries between 0 and 1 inclusive (found {cnt})", construct="number of new nodes = requested number")
     ends = [n.slice.elts[1].id for n in ast.walk(st.value) if isinstance(n, ast.Subscript) and isinstance(n.value, ast.Attribute)
             and n.value.attr == "nodes" and isinstance(n.slice, ast.Tuple)]
     pair = [s for s in ast.walk(fn) if isinstance(s, ast.Assign) and isinstance(s.targets[0], ast.Tuple)
             and sorted(getattr(t, "id", "") for t in s.targets[0].elts) == sorted(ends)]
-    ctx.check("R3", len(pair) == 1 and isinstance(pair[0].value, ast.Call) and call_name(pair[0].value) == "get_all_boundary_nodes", mod, q,
-              pair[0] if pair else st, "the two end points must be the boundary nodes of the old grid", construct="end points are the old boundary nodes")
+    if len(pair) == 1 and isinstance(pair[0].value, ast.Call) and call_name(pair[0].value) == "get_all_boundary_nodes":
+        ctx.check("R3", True, mod, q, pair[0], "end points are the old boundary nodes", construct="end points are the old boundary nodes")
+    else:
+        raise Undecided(f"{REF}:{q}: origin of the end points {ends} not recognised")
 
 
 # =====================================================================================
@@ -638,107 +700,212 @@ def _is_not(e: ast.expr, name: str) -> bool:
     return isinstance(e, ast.Call) and call_name(e) == "logical_not" and len(e.args) == 1 and isinstance(e.args[0], ast.Name) and e.args[0].id == name
 
 
+def _loop_defs(loop: ast.AST, name: str) -> list:
+    return [s for s in ast.walk(loop) if isinstance(s, ast.Assign) and len(s.targets) == 1 and isinstance(s.targets[0], ast.Name) and s.targets[0].id == name]
+
+
 def rule_structured_refinement(ctx: Ctx, mod) -> None:
     q = "structured_refinement"
     fn = view_of(mod, q)
     params = [a.arg for a in fn.args.args]
     coarse, fine = params[0], params[1]
     chk = lambda ok, node, msg, cons: ctx.check("R4", bool(ok), mod, q, node, msg, construct=cons)
-    # restriction  P = P[~M]
-    restr = [s for s in ast.walk(fn) if isinstance(s, ast.Assign) and isinstance(s.targets[0], ast.Name) and isinstance(s.value, ast.Subscript)
-             and isinstance(s.value.value, ast.Name) and s.value.value.id == s.targets[0].id
-             and ((isinstance(s.value.slice, ast.UnaryOp)) or (isinstance(s.value.slice, ast.Call) and call_name(s.value.slice) == "logical_not"))]
+    und = lambda msg: Undecided(f"{REF}:{q}: {msg}")
+    # restriction  P = P[sel]  inside a loop
+    restr = [(lp, s) for lp in ast.walk(fn) if isinstance(lp, ast.For) for s in ast.walk(lp)
+             if isinstance(s, ast.Assign) and isinstance(s.targets[0], ast.Name) and isinstance(s.value, ast.Subscript)
+             and isinstance(s.value.value, ast.Name) and s.value.value.id == s.targets[0].id and not isinstance(s.value.slice, (ast.Slice, ast.Tuple))]
     if len(restr) != 1:
-        raise Undecided(f"{REF}:{q}: the restriction of the untested-cell pointer (`P = P[~mask]`) was not found")
-    rs = restr[0]
+        raise und("the restriction of the untested-cell pointer (`P = P[~mask]`) was not found")
+    loop, rs = restr[0]
     P = rs.targets[0].id
-    msl = rs.value.slice
-    M = msl.operand.id if isinstance(msl, ast.UnaryOp) and isinstance(msl.operand, ast.Name) else (
-        msl.args[0].id if isinstance(msl, ast.Call) and msl.args and isinstance(msl.args[0], ast.Name) else None)
-    if M is None or not _is_not(msl, M):
-        raise Undecided(f"{REF}:{q}: mask of `{u(rs)}` not recognised")
-    loop = None
-    for lp in ast.walk(fn):
-        if isinstance(lp, ast.For) and any(x is rs for x in ast.walk(lp)):
-            loop = lp
-    if loop is None:
-        raise Undecided(f"{REF}:{q}: the restriction is not inside the loop over the coarse cells")
+    sel = rs.value.slice
+    if isinstance(sel, ast.Name) and len(_loop_defs(loop, sel.id)) == 1 and not (isinstance(_loop_defs(loop, sel.id)[0].value, ast.Call)
+                                                                                 and call_name(_loop_defs(loop, sel.id)[0].value) not in ("logical_not", "invert")):
+        d0 = _loop_defs(loop, sel.id)[0].value
+        if isinstance(d0, (ast.UnaryOp, ast.Call)):
+            sel = d0
+    mnames = [n.id for n in ast.walk(sel) if isinstance(n, ast.Name) and n.id not in ("np", "numpy")]
+    if len(mnames) != 1:
+        raise und(f"selector of `{u(rs)}` not recognised")
+    M = mnames[0]
+    if _is_not(sel, M) or (isinstance(sel, ast.Call) and call_name(sel) == "invert" and len(sel.args) == 1):
+        comp = True
+    elif isinstance(sel, ast.Name):
+        comp = False
+    else:
+        raise und(f"selector of `{u(rs)}` not recognised")
+    mdefs = _loop_defs(loop, M)
+    if not mdefs:
+        raise und(f"no definition of the mask `{M}` in the loop")
+    chk(comp, rs,
+        f"after a coarse cell has been tested, the pointer must keep the cells NOT inside it (`{P}[~{M}]`); `{u(rs)}` keeps the cells that were just recorded, "
+        f"so they are recorded again and the others are lost", "pointer restricted with the complement of the mask")
     order = {id(s): i for i, s in enumerate(n for n in ast.walk(loop) if isinstance(n, ast.stmt))}
     pdef = [s for s in _plain_defs(fn, P) if s is not rs]
-    chk(len(pdef) == 1 and isinstance(pdef[0].value, ast.Call) and call_name(pdef[0].value) == "arange" and u(pdef[0].value.args[0]) == f"{fine}.num_cells", rs,
-        f"the pointer of untested cells must start as arange({fine}.num_cells) - the cells of the FINE grid", "untested pointer starts with all fine cells")
-    # ids recorded:  X = P[M]
-    ids = [s for s in ast.walk(loop) if isinstance(s, ast.Assign) and isinstance(s.targets[0], ast.Name) and isinstance(s.value, ast.Subscript)
-           and isinstance(s.value.value, ast.Name) and isinstance(s.value.slice, ast.Name) and s.value.slice.id == M]
+    if not (len(pdef) == 1 and isinstance(pdef[0].value, ast.Call) and call_name(pdef[0].value) == "arange" and len(pdef[0].value.args) == 1):
+        raise und(f"initial value of the pointer `{P}` not recognised")
+    n0 = u(_resolve(fn, pdef[0].value.args[0]))
+    if n0 not in (f"{fine}.num_cells", f"{coarse}.num_cells"):
+        raise und(f"initial pointer arange({n0}) not recognised")
+    chk(n0 == f"{fine}.num_cells", pdef[0], f"the pointer of untested cells must start as arange({fine}.num_cells) - the cells of the FINE grid; found arange({n0})",
+        "untested pointer starts with all fine cells")
+    # appends
+    apps = [s for s in loop.body if isinstance(s, ast.Assign) and isinstance(s.targets[0], ast.Name) and isinstance(s.value, ast.Call)
+            and call_name(s.value) in ("append", "hstack", "concatenate") and s.targets[0].id in {n.id for n in ast.walk(s.value) if isinstance(n, ast.Name)}]
+    inner = [s for s in ast.walk(loop) if s not in apps and s not in loop.body and isinstance(s, ast.Assign) and isinstance(s.targets[0], ast.Name)
+             and isinstance(s.value, ast.Call) and call_name(s.value) in ("append", "hstack", "concatenate")
+             and s.targets[0].id in {n.id for n in ast.walk(s.value) if isinstance(n, ast.Name)}]
+    ctors = [c for c in ast.walk(fn) if isinstance(c, ast.Call) and call_name(c) in ("csc_matrix", "csr_matrix") and c.args
+             and isinstance(_resolve(fn, c.args[0]), ast.Tuple) and len(_resolve(fn, c.args[0]).elts) == 3]
+    if len(ctors) != 1:
+        raise und("constructor of the mapping not found")
+    c = ctors[0]
+    _d, i_, p_ = _resolve(fn, c.args[0]).elts
+    if not (isinstance(i_, ast.Name) and isinstance(p_, ast.Name)):
+        raise und("indices / pointer of the mapping are not plain names")
+    by_t = {s.targets[0].id: s for s in apps + inner}
+    if i_.id not in by_t or p_.id not in by_t:
+        # roles swapped in the constructor?
+        raise und("the arrays given to the constructor are not the ones appended in the loop")
+    # which appended array collects ids (value derived from the mask through the pointer), which counts
+    def appended(stmt):
+        v = stmt.value
+        parts = list(v.args[0].elts) if v.args and isinstance(v.args[0], (ast.Tuple, ast.List)) else list(v.args[:2])
+        rest = [p_x for p_x in parts if not (isinstance(p_x, ast.Name) and p_x.id == stmt.targets[0].id)]
+        return rest[0] if len(rest) == 1 else None
+    roles = {}
+    for nm, stmt in by_t.items():
+        a_ = appended(stmt)
+        if a_ is None:
+            raise und(f"append `{u(stmt)[:70]}` not recognised")
+        roles[nm] = "count" if (isinstance(a_, ast.BinOp) or (isinstance(a_, ast.Call) and call_name(a_) == "len")) else "ids"
+    ids_arr = [nm for nm, r_ in roles.items() if r_ == "ids"]
+    cnt_arr = [nm for nm, r_ in roles.items() if r_ == "count"]
+    if len(ids_arr) != 1 or len(cnt_arr) != 1:
+        raise und("expected one array collecting ids and one collecting the running count")
+    IND, PTR = ids_arr[0], cnt_arr[0]
+    chk(call_name(c) == "csc_matrix" and i_.id == IND and p_.id == PTR, c,
+        f"the mapping is documented as rows = fine cells, columns = coarse cells: column-compressed with indices = fine ids `{IND}` and one pointer entry per "
+        f"coarse cell `{PTR}` (found {call_name(c)}(( ., {i_.id}, {p_.id})))", "mapping is csc(data, fine ids, pointer per coarse cell)")
+    chk(all(by_t[n] in apps for n in (IND, PTR)), by_t[PTR],
+        "ids and pointer are appended once per iteration of the loop over coarse cells (not inside a dimension arm)", "one pointer entry per coarse cell")
+    xa = appended(by_t[IND])
+    if not isinstance(xa, ast.Name):
+        raise und(f"appended ids `{u(xa)}` are not a plain name")
+    X = xa.id
+    ids = _loop_defs(loop, X)
     if len(ids) != 1:
-        raise Undecided(f"{REF}:{q}: the selection of the ids inside the coarse cell (`ids = P[mask]`) was not found")
-    X = ids[0].targets[0].id
-    chk(ids[0].value.value.id == P, ids[0],
-        f"the mask `{M}` lives on the current pointer array `{P}`: the recorded ids must be `{P}[{M}]` (global fine-cell numbers), found `{u(ids[0].value)}`",
-        "recorded ids = pointer[mask]")
+        raise und(f"`{X}` has {len(ids)} definitions in the loop")
+    iv = ids[0].value
+    if isinstance(iv, ast.Subscript) and isinstance(iv.value, ast.Name) and isinstance(iv.slice, ast.Name):
+        ok_ids = iv.value.id == P and iv.slice.id == M
+    elif M in {n.id for n in ast.walk(iv) if isinstance(n, ast.Name)} and P not in {n.id for n in ast.walk(iv) if isinstance(n, ast.Name)} \
+            and any(isinstance(n, ast.Call) and call_name(n) in ("where", "nonzero", "flatnonzero", "argwhere") for n in ast.walk(iv)):
+        ok_ids = False   # positions of the mask, not mapped through the pointer
+    else:
+        raise und(f"definition of the recorded ids `{u(ids[0])[:70]}` not recognised")
+    chk(ok_ids, ids[0],
+        f"the mask `{M}` lives on the current pointer array `{P}`: the recorded ids must be `{P}[{M}]` (global fine-cell numbers); `{u(iv)[:60]}` yields "
+        f"positions within the not-yet-assigned cells (or a different selection), correct only for the first coarse cell", "recorded ids = pointer[mask]")
     chk(order[id(ids[0])] < order[id(rs)], rs,
         f"the ids must be read before the pointer is restricted (afterwards `{M}` no longer matches `{P}`)", "ids read before the pointer is restricted")
-    # test points gathered with the same pointer, mask computed from them
-    mdefs = [s for s in ast.walk(loop) if isinstance(s, ast.Assign) and isinstance(s.targets[0], ast.Name) and s.targets[0].id == M]
-    if not mdefs:
-        raise Undecided(f"{REF}:{q}: no definition of the mask `{M}` in the loop")
+    # pointer increment
+    pa = appended(by_t[PTR])
+    terms = [pa.left, pa.right] if isinstance(pa, ast.BinOp) and isinstance(pa.op, ast.Add) else None
+    if terms is None:
+        raise und(f"pointer increment `{u(pa)}` not recognised")
+    last = [t for t in terms if u(t) == f"{PTR}[-1]"]
+    other = [t for t in terms if u(t) != f"{PTR}[-1]"]
+    if len(last) != 1 or len(other) != 1:
+        raise und(f"pointer increment `{u(pa)}` not recognised")
+    o = other[0]
+    sized = o.value.id if isinstance(o, ast.Attribute) and o.attr == "size" and isinstance(o.value, ast.Name) else (
+        o.args[0].id if isinstance(o, ast.Call) and call_name(o) == "len" and o.args and isinstance(o.args[0], ast.Name) else (
+            o.value.value.id if isinstance(o, ast.Subscript) and isinstance(o.value, ast.Attribute) and o.value.attr == "shape" and isinstance(o.value.value, ast.Name) else None))
+    if sized is None:
+        raise und(f"pointer increment `{u(o)}` not recognised")
+    chk(sized == X, by_t[PTR], f"per coarse cell the column pointer must grow by the number of ids appended ({X}); it grows by the size of `{sized}`",
+        "column pointer advances by the number of appended ids")
+    # tested points gathered with the pointer
     n_arm = 0
     for md in mdefs:
-        names = {n.id for n in ast.walk(md.value) if isinstance(n, ast.Name)}
-        pts = None
-        for nm in names:
-            for d in [s for s in ast.walk(loop) if isinstance(s, ast.Assign) and isinstance(s.targets[0], ast.Name) and s.targets[0].id == nm]:
-                if isinstance(d.value, ast.Subscript) and P in {n.id for n in ast.walk(d.value.slice) if isinstance(n, ast.Name)}:
-                    pts = d
         n_arm += 1
-        arm = ki_arm = None
-        cur = md
-        chk(pts is not None, md,
-            f"the mask `{M}` must be computed from points gathered with the current pointer `{P}` (so that it can select from `{P}`); `{u(md)[:80]}` uses none",
-            f"mask arm {n_arm}: tested points are gathered with the pointer array")
-    # appends in lock-step
-    apps = [s for s in ast.walk(loop) if isinstance(s, ast.Assign) and isinstance(s.targets[0], ast.Name) and isinstance(s.value, ast.Call)
-            and call_name(s.value) in ("append", "hstack", "concatenate") and s.targets[0].id in {n.id for n in ast.walk(s.value) if isinstance(n, ast.Name)}]
-    ind_app = [s for s in apps if X in {n.id for n in ast.walk(s.value) if isinstance(n, ast.Name)} and ".size" not in u(s.value) and "len(" not in u(s.value)]
-    ptr_app = [s for s in apps if s not in ind_app]
-    if len(ind_app) != 1 or len(ptr_app) != 1:
-        raise Undecided(f"{REF}:{q}: expected one append of the ids and one append of the column pointer per coarse cell")
-    IND, PTR = ind_app[0].targets[0].id, ptr_app[0].targets[0].id
-    pv = ptr_app[0].value
-    new = pv.args[1] if call_name(pv) == "append" and len(pv.args) == 2 else None
-    ok_p = isinstance(new, ast.BinOp) and isinstance(new.op, ast.Add) and {u(new.left), u(new.right)} == {f"{PTR}[-1]", f"{X}.size"}
-    chk(ok_p, ptr_app[0], f"per coarse cell the column pointer must grow by the number of ids appended: {PTR}[-1] + {X}.size (found `{u(pv)[:70]}`)",
-        "column pointer advances by the number of appended ids")
-    chk(all(any(s is x for x in loop.body) for s in (ind_app[0], ptr_app[0])), ptr_app[0],
-        "ids and pointer are appended once per iteration of the loop over coarse cells (not inside a dimension arm)", "one pointer entry per coarse cell")
+        names = {n.id for n in ast.walk(md.value) if isinstance(n, ast.Name)}
+        gathers = []
+        for nm in names:
+            for d in _loop_defs(loop, nm):
+                if isinstance(d.value, ast.Subscript) and isinstance(d.value.value, ast.Name):
+                    gathers.append(d)
+        if not gathers:
+            raise und(f"the points tested by `{u(md)[:60]}` could not be traced to a gather")
+        with_p = [d for d in gathers if P in {n.id for n in ast.walk(d.value.slice) if isinstance(n, ast.Name)}]
+        chk(bool(with_p), md,
+            f"the mask `{M}` must be computed from points gathered with the current pointer `{P}` (so that it can select from `{P}`); "
+            f"`{u(gathers[0])[:70]}` gathers without it", f"mask arm {n_arm}: tested points are gathered with the pointer array")
     # loop runs over the coarse cells
     it_src = _resolve(fn, loop.iter)
-    ok_it = isinstance(it_src, ast.Call) and call_name(it_src) == "zip" and len(it_src.args) == 2 and all(".indptr" in u(a) for a in it_src.args)
-    cn = None
-    if ok_it:
-        base = it_src.args[0].value.value if isinstance(it_src.args[0], ast.Subscript) and isinstance(it_src.args[0].value, ast.Attribute) else None
-        cn = _resolve(fn, base) if base is not None else None
-    chk(ok_it and isinstance(cn, ast.Call) and call_name(cn) == "cell_nodes" and u(cn.func.value) == coarse, loop,
-        f"the loop must visit the cells of the COARSE grid `{coarse}` (pointer windows of {coarse}.cell_nodes())", "loop over the coarse cells")
-    # the matrix
-    ctors = [c for c in ast.walk(fn) if isinstance(c, ast.Call) and call_name(c) in ("csc_matrix", "csr_matrix") and c.args
-             and isinstance(c.args[0], ast.Tuple) and len(c.args[0].elts) == 3]
-    if len(ctors) != 1:
-        raise Undecided(f"{REF}:{q}: constructor of the mapping not found")
-    c = ctors[0]
-    _d, i_, p_ = c.args[0].elts
-    chk(call_name(c) == "csc_matrix" and u(i_) == IND and u(p_) == PTR, c,
-        f"the mapping is documented as rows = fine cells, columns = coarse cells: column-compressed with indices = fine ids `{IND}` and one pointer entry per "
-        f"coarse cell `{PTR}` (found {call_name(c)}(( ., {u(i_)}, {u(p_)})))", "mapping is csc(data, fine ids, pointer per coarse cell)")
+    if not (isinstance(it_src, ast.Call) and call_name(it_src) == "zip" and len(it_src.args) == 2
+            and all(isinstance(a_, ast.Subscript) and isinstance(a_.value, ast.Attribute) and a_.value.attr == "indptr" for a_ in it_src.args)):
+        raise und("iteration over the coarse cells not recognised")
+    cn = _resolve(fn, it_src.args[0].value.value)
+    if not (isinstance(cn, ast.Call) and call_name(cn) == "cell_nodes" and isinstance(cn.func, ast.Attribute) and u(cn.func.value) in (coarse, fine)):
+        raise und("the pointer windows iterated over are not those of a grid's cell_nodes()")
+    chk(u(cn.func.value) == coarse, loop,
+        f"the loop must visit the cells of the COARSE grid `{coarse}` (pointer windows of {coarse}.cell_nodes()); it visits those of `{u(cn.func.value)}`",
+        "loop over the coarse cells")
 
 
 def run(ctx: Ctx) -> None:
     rmod = ctx.repo.module(REF)
     emod = ctx.repo.module(EXT)
-    rule_refine_triangle(ctx, rmod)
-    rule_extrusion(ctx, emod)
-    rule_convex(ctx, rmod)
-    rule_structured_refinement(ctx, rmod)
+    guarded(ctx, rule_refine_triangle, rmod)
+    guarded(ctx, rule_extrusion, emod)
+    guarded(ctx, rule_convex, rmod)
+    guarded(ctx, rule_structured_refinement, rmod)
 
 
-MUTANTS: list = []
+def _m(name, old, new, rule, file=REF, control=False, count=1):
+    return dict(name=name, file=file, old=old, new=new, rule=rule, control=control, count=count)
+
+
+MUTANTS = [
+    # R1
+    _m("tri-face-centre-without-shift", "np.vstack((equal_n, offset + cf[b[0]], offset + cf[b[1]]))", "np.vstack((equal_n, cf[b[0]], offset + cf[b[1]]))", "R1", control=True),
+    _m("tri-shift-by-number-of-faces", "    offset = g.num_nodes\n", "    offset = g.num_faces\n", "R1"),
+    _m("tri-nodes-stacked-faces-first", "new_nodes = np.hstack((g.nodes, g.face_centers))", "new_nodes = np.hstack((g.face_centers, g.nodes))", "R1"),
+    _m("tri-centre-child-without-shift", "    new_tri[:, :, -1] = offset + cf\n", "    new_tri[:, :, -1] = cf\n", "R1"),
+    _m("tri-face-node-roles-swapped", "loc_n = np.vstack((fn[:, cf[b[0]]], fn[:, cf[b[1]]]))", "loc_n = np.vstack((cf[:, fn[b[0]]], fn[:, cf[b[1]]]))", "R1"),
+    # R2
+    _m("ext1d-node-layers-counted-in-faces", "fn_this = k * nn_old + np.vstack((fn_old, nn_old + fn_old))", "fn_this = k * nf_old + np.vstack((fn_old, nn_old + fn_old))",
+       "R2", file=EXT, control=True),
+    _m("ext1d-horizontal-base-in-nodes", "cf_hor_this += nf_old * num_cell_layers + k * nc_old", "cf_hor_this += nn_old * num_cell_layers + k * nc_old", "R2", file=EXT),
+    _m("ext2d-vertical-faces-counted-in-nodes", "np.hstack((cf_rows_vertical, cf_rows_2d + k * nf_2d))", "np.hstack((cf_rows_vertical, cf_rows_2d + k * nn_2d))", "R2", file=EXT),
+    _m("ext2d-horizontal-layer-counted-in-faces", "            + k * nc_2d\n            + np.hstack((np.arange(nc_2d), np.arange(nc_2d)))", "            + k * nf_2d\n            + np.hstack((np.arange(nc_2d), np.arange(nc_2d)))", "R2", file=EXT),
+    _m("ext2d-upper-cells-counted-in-faces", "((k - 1) * nc_2d + np.arange(nc_2d), k * nc_2d + np.arange(nc_2d))", "((k - 1) * nc_2d + np.arange(nc_2d), k * nf_2d + np.arange(nc_2d))", "R2", file=EXT),
+    _m("maps-face-map-steps-by-cells", "np.arange(f, g.num_faces * num_cell_layers, g.num_faces)", "np.arange(f, g.num_faces * num_cell_layers, g.num_cells)", "R2", file=EXT),
+    _m("maps-cell-major-numbering", "cell_map[c] = np.arange(c, g_new.num_cells, g.num_cells)", "cell_map[c] = np.arange(c * num_cell_layers, (c + 1) * num_cell_layers)", "R2", file=EXT),
+    _m("tags-one-face-layer-too-many", "    for _ in range(num_cell_layers):\n        fracture_face_tag = np.hstack", "    for _ in range(num_cell_layers + 1):\n        fracture_face_tag = np.hstack", "R2", file=EXT),
+    _m("tags-horizontal-faces-first", "        (tip_face_tag, np.zeros(nc_old * (num_cell_layers + 1), dtype=bool))", "        (np.zeros(nc_old * (num_cell_layers + 1), dtype=bool), tip_face_tag)", "R2", file=EXT),
+    _m("tags-node-layers-one-short", "tip_node_tag = np.tile(g.tags[\"tip_nodes\"], (num_cell_layers + 1, 1)).ravel()", "tip_node_tag = np.tile(g.tags[\"tip_nodes\"], (num_cell_layers, 1)).ravel()", "R2", file=EXT),
+    _m("ext1d-columns-flattened-c-order", "cf_cols = np.tile(np.arange(nc_new), (4, 1)).ravel(\"F\")", "cf_cols = np.tile(np.arange(nc_new), (4, 1)).ravel(\"C\")", "R2", file=EXT),
+    _m("ext1d-face-count", "nf_new = g.num_faces * num_cell_layers + g.num_cells * (num_cell_layers + 1)", "nf_new = g.num_faces * num_cell_layers + g.num_cells * num_cell_layers", "R2", file=EXT),
+    _m("ext2d-node-of-face-by-cell-index", "p0 = g.nodes[:, fn_2d[0, fi[idx]]]", "p0 = g.nodes[:, fn_2d[0, ci[idx]]]", "R2", file=EXT),
+    _m("ext2d-cell-centre-by-face-index", "pc = g.cell_centers[:, ci[idx]]", "pc = g.cell_centers[:, fi[idx]]", "R2", file=EXT),
+    # R3
+    _m("refine1d-weights-not-convex", "g.nodes[:, start].reshape((-1, 1)) * (1 - theta)", "g.nodes[:, start].reshape((-1, 1)) * (1 + theta)", "R3"),
+    _m("refine1d-counter-increment", "        node_counter += ratio - 1\n", "        node_counter += ratio\n", "R3"),
+    _m("refine1d-window-spans-two-cells", "loc = slice(cell_nodes.indptr[c], cell_nodes.indptr[c + 1])", "loc = slice(cell_nodes.indptr[c], cell_nodes.indptr[c + 2])", "R3"),
+    _m("remesh-weights-not-convex", "    ] * (1.0 - theta)", "    ] * (1.0 + theta)", "R3"),
+    _m("remesh-one-node-too-many", "theta = np.linspace(0, 1, num_nodes)", "theta = np.linspace(0, 1, num_nodes + 1)", "R3"),
+    # R4
+    _m("coarse-fine-ids-are-positions", "in_poly_ids = test_cells_ptr[in_poly]", "in_poly_ids = np.where(in_poly)[0]", "R4"),
+    _m("coarse-fine-keeps-recorded-cells", "test_cells_ptr = test_cells_ptr[~in_poly]", "test_cells_ptr = test_cells_ptr[in_poly]", "R4"),
+    _m("coarse-fine-pointer-by-mask-length", "indptr = np.append(indptr, indptr[-1] + in_poly_ids.size)", "indptr = np.append(indptr, indptr[-1] + in_poly.size)", "R4"),
+    _m("coarse-fine-transposed-format", "coarse_fine = sps.csc_matrix((data, indices, indptr))", "coarse_fine = sps.csr_matrix((data, indices, indptr))", "R4"),
+    _m("coarse-fine-pointer-over-coarse-cells", "test_cells_ptr = np.arange(g_ref.num_cells)", "test_cells_ptr = np.arange(g.num_cells)", "R4"),
+    dict(name="coarse-fine-restrict-before-read", rule="R4", file=REF, edits=[dict(file=REF,
+         old="        in_poly_ids = test_cells_ptr[in_poly]  # id of cells inside this polyhedron\n        # Keep only cells not inside this polyhedron\n        test_cells_ptr = test_cells_ptr[~in_poly]\n",
+         new="        all_ptr = test_cells_ptr\n        test_cells_ptr = test_cells_ptr[~in_poly]\n        in_poly_ids = test_cells_ptr[in_poly]\n")]),
+    _m("coarse-fine-loop-over-fine-cells", "    cell_nodes = g.cell_nodes()\n    # start/end row pointers for each column", "    cell_nodes = g_ref.cell_nodes()\n    # start/end row pointers for each column", "R4"),
+]
